@@ -240,6 +240,9 @@ func cmdVerify(args []string) {
 		lemmas = append(lemmas, w.CS.Order...)
 	} else {
 		for _, k := range strings.Split(*funcs, ",") {
+			if k == "impl" {
+				continue // only the behavioural-subtyping obligations
+			}
 			if _, ok := w.CS.Lemmas[k]; ok {
 				lemmas = append(lemmas, k)
 			} else if _, ok := w.CS.Funcs[k]; ok {
@@ -251,7 +254,7 @@ func cmdVerify(args []string) {
 		}
 	}
 	implProp := "-"
-	if *funcs == "" {
+	if *funcs == "" || *funcs == "impl" {
 		implProp = ""
 	}
 	for _, e := range w.CS.LoadErrors {
